@@ -11,6 +11,7 @@ import z3
 Z3_TIMEOUT_MS = int(os.environ.get("PYVC_Z3_MS", "10000"))
 CVC5_TIMEOUT_S = int(os.environ.get("PYVC_CVC5_S", "20"))
 FEAS_TIMEOUT_MS = int(os.environ.get("PYVC_FEAS_MS", "150"))
+RETRY_FACTOR = int(os.environ.get("PYVC_RETRY_FACTOR", "4"))
 
 _theories = []   # callables: list[z3 Bool] -> list[z3 Bool] (lemma instances)
 
@@ -141,6 +142,23 @@ def prove(hyps, goal, timeout_ms=None, use_cvc5=True, want_model=True):
             return "proved", "cvc5", None, dt
         if c == "sat":
             return "failed", "cvc5", None, dt
+    if RETRY_FACTOR > 1 and ("timeout" in reason or "canceled" in reason):
+        # a time-out, not incompleteness: one more attempt with a larger budget and another seed, so that a busy machine
+        # does not turn a discharged obligation into an undecided one
+        s3 = z3.Solver()
+        s3.set("timeout", timeout_ms * RETRY_FACTOR)
+        s3.set("random_seed", 7)
+        for h in hyps:
+            s3.add(h)
+        for f in facts:
+            s3.add(f)
+        s3.add(z3.Not(goal))
+        r3 = s3.check()
+        dt = time.time() - t0
+        if r3 == z3.unsat:
+            return "proved", "z3(retry)", None, dt
+        if r3 == z3.sat:
+            return "failed", "z3(retry)", (s3.model() if want_model else None), dt
     return "unknown", "z3+cvc5" if use_cvc5 else "z3", None, dt
 
 
